@@ -23,6 +23,12 @@ func HC07Step() {
 	s.octetCount = vr.NondetU32()
 	t0 := c07epoch.Add(time.Duration(vr.NondetInt(0, 1<<40)))
 	s.lastRTPTimeTime = t0
+	if s.packetCount == 0 {
+		// no packet yet: the only reachable state is the constructor's
+		s.lastRTPTimeRTP, s.lastRTPSN, s.octetCount = 0, 0, 0
+		s.lastRTPTimeTime = time.Time{}
+		t0 = time.Time{}
+	}
 	pc0, oc0, ts0, sn0 := s.packetCount, s.octetCount, s.lastRTPTimeRTP, s.lastRTPSN
 
 	now := c07epoch.Add(time.Duration(vr.NondetInt(0, 1<<40)))
@@ -39,7 +45,10 @@ func HC07Step() {
 	if accept {
 		vr.Cover("reference candidate")
 		vr.Assert(s.lastRTPSN == hdr.SequenceNumber, "sequence reference follows accepted packet")
-		if hdr.Timestamp != ts0 {
+		if pc0 == 0 {
+			vr.Cover("first packet ever")
+			vr.Assert(s.lastRTPTimeRTP == hdr.Timestamp && s.lastRTPTimeTime.Equal(now), "the first packet sets the timestamp reference, whatever its timestamp")
+		} else if hdr.Timestamp != ts0 {
 			vr.Cover("first packet of a frame")
 			vr.Assert(s.lastRTPTimeRTP == hdr.Timestamp && s.lastRTPTimeTime.Equal(now), "reference moves to the first packet of a new frame")
 		} else {
